@@ -97,15 +97,8 @@ func repairMemGal(a *App) string {
 			"; rp_reset_count := "+vk.Z(int64(st.History[ResetSlave]))+"; rp_last_gtid := "+vk.GtidGal(st.LastGTIDExecuted)+" |}"))
 	}
 	fs := []string{}
-	hs2 := []string{}
-	for h, v := range a.t.m[StreamFromFailedAt] {
-		if !v.IsZero() {
-			hs2 = append(hs2, h)
-		}
-	}
-	sort.Strings(hs2)
-	for _, h := range hs2 {
-		fs = append(fs, vk.T(hostGal(h), vk.Z(nsOf(a.t.m[StreamFromFailedAt][h]))))
+	for _, h := range vTimingHosts(a.t, StreamFromFailedAt) {
+		fs = append(fs, vk.T(hostGal(h), vk.Z(nsOf(a.t.Get(StreamFromFailedAt, h)))))
 	}
 	return "{| rm_repair := " + vk.L(items) + "; rm_stream_failed_at := " + vk.L(fs) + " |}"
 }
